@@ -3,7 +3,7 @@ Keyed lists with additive payload: the shape shared by fuel-consumption records
 (`FuelConsumption.fuels`, key = fuel kind) and by the emitted-species dictionary of a result
 (`FEEMSResult.total_emission_kg`, key = species).  `add` is `FuelConsumption.__add__`
 (`feems/fuel.py`), modelled on the *list* the code manipulates, so that an algorithmic slip such
-as matching one right-hand entry twice is visible.  The payload type `M` is arbitrary: `Rat` for
+as matching one right-hand entry twice is visible (it was there: D20, `addLegacy`).  The payload type `M` is arbitrary: `Rat` for
 scalars, functions / vectors for time series (numpy arithmetic is element-wise).
 -/
 import FeemsModel.Model.Basic
@@ -23,6 +23,33 @@ def total [Add M] [Zero M] (r : Rec K M) : M := r.foldr (fun e acc => e.2 + acc)
 def massOf [Add M] [Zero M] (k : K) (r : Rec K M) : M :=
   total (r.filter (fun e => e.1 = k))
 
+/-- First entry of `b` with the key `k` taken out of `b`: its payload and the remaining entries in
+their order.  This is `next(index for index, x in enumerate(other.fuels) if index not in
+index_fuel_added and same kind)` with `b` = the entries of `other` not yet matched. -/
+def takeFirst (k : K) : Rec K M → Option (M × Rec K M)
+  | [] => none
+  | e :: b =>
+    if e.1 = k then some (e.2, b)
+    else match takeFirst k b with
+      | some (m, b') => some (m, e :: b')
+      | none => none
+
+/-- `FuelConsumption.__add__` (`fuel.py:599-628`): every entry of `self`, in order, takes the first
+not-yet-matched entry of `other` of its kind (or is copied); the entries of `other` that were
+never matched follow in their order.  With `self` empty the result is `other`. -/
+def add [Add M] : Rec K M → Rec K M → Rec K M
+  | [], b => b
+  | e :: a, b =>
+    match takeFirst e.1 b with
+    | some (m, b') => (e.1, e.2 + m) :: add a b'
+    | none => e :: add a b
+
+/-! #### The addition as found before the repair of D20
+
+`next(filter(same kind, other.fuels))` always returned the *first* entry of that kind, matched or
+not, so with a kind listed twice in `self` (main and pilot fuel of the same kind) the same entry
+of `other` was added twice. -/
+
 /-- First entry of `b` with the key `k`: `next(filter(lambda x: same kind, other.fuels))`. -/
 def firstOf (k : K) (b : Rec K M) : Option (K × M) := b.find? (fun e => e.1 = k)
 
@@ -41,8 +68,8 @@ def addRest (aks : List K) : List K → Rec K M → Rec K M
     if e.1 ∈ aks ∧ e.1 ∉ seen then addRest aks (e.1 :: seen) b
     else e :: addRest aks (e.1 :: seen) b
 
-/-- `FuelConsumption.__add__` (`fuel.py:590-616`). -/
-def add [Add M] (a b : Rec K M) : Rec K M :=
+/-- `FuelConsumption.__add__` as found (before D20). -/
+def addLegacy [Add M] (a b : Rec K M) : Rec K M :=
   if a.isEmpty then b else addMatched a b ++ addRest (kinds a) [] b
 
 /-- Union merge of two dictionaries, left keys first:
